@@ -3,9 +3,11 @@
 cd "$(dirname "$0")/.." || exit 3
 rc=0
 for p in $(python3 -c "import json; print(' '.join(c['property_id'] for c in json.load(open('MANIFEST.json'))['checks']))"); do
-  out=$(timeout 1500 ./check $p --tier ${1:-quick} 2>/dev/null | grep -v WARNING | tail -3)
-  code=${PIPESTATUS[0]}
-  echo "$p exit=$code :: $out" | tr '\n' ' '; echo
+  mkdir -p .tmp
+  timeout 3000 ./check $p --tier ${1:-quick} > .tmp/run_$p.log 2>/dev/null
+  code=$?
+  [ $code -ne 0 ] && rc=1
+  echo "$p exit=$code :: $(grep -v WARNING .tmp/run_$p.log | grep -v '^KNOWN-FINDING' | tail -3 | tr '\n' ' ')"; grep -c '^KNOWN-FINDING' .tmp/run_$p.log | sed 's/^/   known findings printed: /' 
 done
 python3-vt - <<'PY'
 import json, jsonschema, glob
@@ -16,3 +18,4 @@ for f in sorted(glob.glob('/verif/evidence/*.json')):
     c = e['coverage']
     print(f.split('/')[-1], c['obligations'], c['discharged'], 'violations', e.get('violations'))
 PY
+exit $rc
